@@ -32,7 +32,9 @@ RULE = ("State = configuration + history produced by the drivers of C01 (Bloom /
         "channel and every loader of that class is exercised, followed by a generated suffix of 0-4 further operations on original and "
         "copy. Non-trivial = the state has a corner feature: number_bits % 8 != 0, > 1 sub-filter, a removal (also beyond the outstanding count: negative counters) / eviction / expansion / "
         "rotation happened, fingerprint width not a whole number of bytes, on-disk origin. Distinct by (structure, resolved history).")
-ASSUMPTIONS = ["the expanding/rotating false_positive_rate is compared after narrowing to the 32-bit float the format stores",
+ASSUMPTIONS = ["frombytes is also exercised with bytearray and memoryview (ByteString) for every class except the plain CuckooFilter, whose loader "
+               "accepts only the bytes type on the unchanged tree",
+               "the expanding/rotating false_positive_rate is compared after narrowing to the 32-bit float the format stores",
                "what the format does not store is re-supplied: hash function, cuckoo fingerprint width / expansion rate / auto_expand, rotating "
                "queue limit, heavy-hitter count / threshold (their tables are not compared)",
                "set-operation results whose cells are all set (elements_added = -1 sentinel) are excluded: open finding KF_SATURATED_SETOP"]
@@ -156,7 +158,9 @@ def _bloom_like(case, ctx, d, counting):
     want = observe(o)
     loaders = [("frombytes", lambda: K.frombytes(raw, hf)), ("filepath", lambda: K(filepath=ad.write(raw), hash_function=hf)),
                ("filepath_Path", lambda: K(filepath=Path(ad.write(raw)), hash_function=hf)),
-               ("hex_string", lambda: K(hex_string=hx, hash_function=hf))]
+               ("hex_string", lambda: K(hex_string=hx, hash_function=hf)),
+               ("frombytes_bytearray", lambda: K.frombytes(bytearray(raw), hf)),
+               ("frombytes_memoryview", lambda: K.frombytes(memoryview(raw), hf))]
     if not counting:
         loaders.append(("BloomFilterOnDisk", lambda: BloomFilterOnDisk(ad.write(raw), hash_function=hf)))
     copies = []
@@ -214,10 +218,14 @@ def _expanding(case, ctx, d):
 
     want = observe(o)
     if rot:
-        loaders = [("frombytes", lambda: K.frombytes(raw, d.q, hf)), ("filepath", lambda: K(filepath=ad.write(raw), max_queue_size=d.q, hash_function=hf))]
+        loaders = [("frombytes", lambda: K.frombytes(raw, d.q, hf)), ("filepath", lambda: K(filepath=ad.write(raw), max_queue_size=d.q, hash_function=hf)),
+                   ("frombytes_bytearray", lambda: K.frombytes(bytearray(raw), d.q, hf)),
+                   ("frombytes_memoryview", lambda: K.frombytes(memoryview(raw), d.q, hf))]
     else:
         loaders = [("frombytes", lambda: K.frombytes(raw, hf)), ("filepath", lambda: K(filepath=ad.write(raw), hash_function=hf)),
-                   ("filepath_Path", lambda: K(filepath=Path(ad.write(raw)), hash_function=hf))]
+                   ("filepath_Path", lambda: K(filepath=Path(ad.write(raw)), hash_function=hf)),
+                   ("frombytes_bytearray", lambda: K.frombytes(bytearray(raw), hf)),
+                   ("frombytes_memoryview", lambda: K.frombytes(memoryview(raw), hf))]
     copies = []
     for name, mk in loaders:
         g = ctx.call(ad.nx, mk)
@@ -271,7 +279,9 @@ def _cms(case, ctx, d):
     want = observe(o)
     loaders = [("frombytes", lambda: K.frombytes(raw, hash_function=hf, **extra)),
                ("filepath", lambda: K(filepath=ad.write(raw), hash_function=hf, **extra)),
-               ("filepath_Path", lambda: K(filepath=Path(ad.write(raw)), hash_function=hf, **extra))]
+               ("filepath_Path", lambda: K(filepath=Path(ad.write(raw)), hash_function=hf, **extra)),
+               ("frombytes_bytearray", lambda: K.frombytes(bytearray(raw), hash_function=hf, **extra)),
+               ("frombytes_memoryview", lambda: K.frombytes(memoryview(raw), hash_function=hf, **extra))]
     copies = []
     for name, mk in loaders:
         g = ctx.call(ad.nx, mk)
@@ -354,6 +364,9 @@ def _cuckoo(case, ctx, d):
     else:
         loaders = [("frombytes_er", lambda: resupply(K.frombytes(raw, er, hf))),
                    ("load_error_rate", lambda: resupply(K.load_error_rate(er, ad.write(raw), hf)))]
+    if counting:  # the plain CuckooFilter loader accepts the `bytes` type only (observed on the unchanged tree); not generated for it
+        loaders.append(("frombytes_bytearray", lambda: resupply(K.frombytes(bytearray(raw), er, hf))))
+        loaders.append(("frombytes_memoryview", lambda: resupply(K.frombytes(memoryview(raw), er, hf))))
     copies = []
     for name, mk in loaders:
         g = ctx.call(ad.nx, mk)
